@@ -185,6 +185,31 @@ def proj_block(name, block):
         return "?%s" % exc
 
 
+def chain(n):
+    return [(i, i + 1) for i in range(n - 1)]
+
+
+def edges_of(g):
+    return sorted(tuple(sorted(e)) for e in g.edges)
+
+
+def block_edged(block):
+    """the molecule type carries the edges of its content: the rendered content is a chain (bond i - i+1)"""
+    try:
+        return edges_of(block) == chain(len(block.nodes))
+    except Exception:
+        return False
+
+
+def instance_edged(m):
+    """residue graph and atom graph of the instance are the chain of its content (one atom per residue)"""
+    try:
+        n = len(m.molecule.nodes)
+        return edges_of(m.molecule) == chain(n) and edges_of(m) == chain(len(m.nodes)) and len(m.nodes) == n
+    except Exception:
+        return False
+
+
 def proj_instance(m, blocks):
     """an instance projects to its molecule-type name if it is a copy of that block, else to a marked name"""
     try:
@@ -232,11 +257,14 @@ def project_rendered(top):
     return {"abort": "", "defs": defs, "defaults": defaults,
             "atypes": {k: proj_atype(v) for k, v in top.atom_types.items()},
             "nbp": nbp, "types": types, "blocks": blocks,
+            "edged": {k: block_edged(b) for k, b in top.force_field.blocks.items()},
             "molecules": [proj_instance(m, top.force_field.blocks) for m in top.molecules],
+            "medged": [instance_edged(m) for m in top.molecules],
             "idx": {k: [int(i) for i in v] for k, v in top.mol_idx_by_name.items() if v}}
 
 
-ABORTED = {"defs": {}, "defaults": 0, "atypes": {}, "nbp": {}, "types": {}, "blocks": {}, "molecules": [], "idx": {}}
+ABORTED = {"defs": {}, "defaults": 0, "atypes": {}, "nbp": {}, "types": {}, "blocks": {}, "edged": {}, "molecules": [], "medged": [],
+           "idx": {}}
 
 
 def classify_exception(exc):
@@ -352,13 +380,15 @@ def norm_expected(e):
     for key, n in e["types"]:
         types.setdefault(key, []).append(n)
     return {"abort": e["abort"], "defs": as_map(e["defs"]), "defaults": e["defaults"], "atypes": as_map(e["atypes"]),
-            "nbp": as_map(e["nbp"]), "types": types, "blocks": as_map(e["blocks"]), "molecules": list(e["molecules"]),
+            "nbp": as_map(e["nbp"]), "types": types, "blocks": as_map(e["blocks"]), "edged": as_map(e["edged"]),
+            "molecules": list(e["molecules"]), "medged": list(e["medged"]),
             "idx": {k: list(v) for k, v in as_map(e["idx"]).items()}}
 
 
-FIELDS = ("abort", "defs", "defaults", "atypes", "nbp", "types", "blocks", "molecules", "idx")
+FIELDS = ("abort", "defs", "defaults", "atypes", "nbp", "types", "blocks", "edged", "molecules", "medged", "idx")
 FIELD_NAMES = {"abort": "abort / #error / missing include", "defs": "defines", "defaults": "defaults", "atypes": "atom types",
-               "nbp": "nonbond_params", "types": "type tables", "blocks": "molecule types", "molecules": "molecule list",
+               "nbp": "nonbond_params", "types": "type tables", "blocks": "molecule types", "edged": "edges of the molecule types", "molecules": "molecule list",
+               "medged": "edges (residue graph / atoms) of the instances",
                "idx": "mol_idx_by_name"}
 
 
@@ -515,8 +545,17 @@ def random_tree(rng, size):
     dirs = [(), ("sub",), ("sub", "deep"), ("lib",), ("lib", "ff")]
     nfiles = rng.randint(2, 3 + size)
     paths = [("main.top",)]
+    # few base names over five directories: the same relative name exists in several directories (with different
+    # content), so that resolving an include against any directory but the including file's is observable
+    names = ["ff.itp", "mol.itp", "x.itp"]
     for i in range(1, nfiles):
-        paths.append(rng.choice(dirs) + ("f%d.itp" % i,))
+        for _ in range(20):
+            p = rng.choice(dirs) + (rng.choice(names),)
+            if p not in paths:
+                break
+        else:
+            p = rng.choice(dirs) + ("f%d.itp" % i,)
+        paths.append(p)
     molnames = ["A", "B", "C", "D", "E", "F", "G"]
     molsize = {m: rng.randint(1, 3) for m in molnames}
     files = {}
@@ -578,6 +617,28 @@ def random_tree(rng, size):
     return files
 
 
+def tree_stats(files):
+    """input statistics (no oracle): does an include written outside the main directory also name an existing, different
+    file when taken relative to the main directory; is a molecule type name declared by two files"""
+    clash = False
+    for path, lines in files.items():
+        d = path[:-1]
+        if not d:
+            continue
+        for l in lines:
+            if l["k"] == "incl":
+                own = tuple(x for x in os.path.normpath("/".join(d + tuple(l["p"]))).split("/"))
+                top = tuple(x for x in os.path.normpath("/".join(l["p"])).split("/"))
+                if own in files and top in files and own != top:
+                    clash = True
+    decl = {}
+    for path, lines in files.items():
+        for l in lines:
+            if l["k"] == "mol":
+                decl.setdefault(l["a"], set()).add(path)
+    return {"clash": clash, "reread": any(len(v) > 1 for v in decl.values())}
+
+
 def _record_random(arg):
     sd, ids, size = arg
     root = scratch("rnd")
@@ -598,7 +659,8 @@ def _record_random(arg):
         except RecursionError as exc:
             obs, pr = dict(ABORTED, abort="exception RecursionError"), None
         out.append({"id": "random %d/%d" % (sd, i), "main": ["main.top"], "variant": variant, "relative": relative,
-                    "files": [{"path": list(p), "lines": ls} for p, ls in files.items()], "obs": obs_json(obs), "probe": pr})
+                    "files": [{"path": list(p), "lines": ls} for p, ls in files.items()], "obs": obs_json(obs), "probe": pr,
+                    "stats": tree_stats(files)})
     shutil.rmtree(root, ignore_errors=True)
     return out
 
@@ -607,8 +669,8 @@ def obs_json(o):
     def pairs(d):
         return [[k, d[k]] for k in sorted(d)]
     return {"abort": o["abort"], "defs": pairs(o["defs"]), "defaults": o["defaults"], "atypes": pairs(o["atypes"]),
-            "nbp": pairs(o["nbp"]), "types": pairs(o["types"]), "blocks": pairs(o["blocks"]), "molecules": list(o["molecules"]),
-            "idx": pairs(o["idx"])}
+            "nbp": pairs(o["nbp"]), "types": pairs(o["types"]), "blocks": pairs(o["blocks"]), "edged": pairs(o["edged"]),
+            "molecules": list(o["molecules"]), "medged": list(o["medged"]), "idx": pairs(o["idx"])}
 
 
 def tla_safe(rec):
@@ -672,6 +734,15 @@ def block_value(b):
                           for i in v] for k, v in sorted(b.interactions.items()) if v}}
 
 
+def edge_value(g):
+    return sorted(sorted(map(repr, e)) for e in g.edges)
+
+
+def res_edge_value(block):
+    from polyply.src.meta_molecule import MetaMolecule
+    return edge_value(MetaMolecule._block_graph_to_res_graph(block))
+
+
 def table_entries(top):
     """all table entries of a topology as (kind, key, value) in a canonical form"""
     out = []
@@ -711,7 +782,10 @@ def lex_file(path, vals):
             if len(names) != 1:
                 raise OutOfDomain("molecule type text does not define exactly one block")
             pos = mol_pos[0]
-            out.insert(pos, L("mol", names[0], vals.vid("mol", names[0], block_value(top.force_field.blocks[names[0]]), True)))
+            blk = top.force_field.blocks[names[0]]
+            out.insert(pos, L("mol", names[0], vals.vid("mol", names[0], block_value(blk), True)))
+            vals.vid("moledges", names[0], edge_value(blk), True)
+            vals.vid("resedges", names[0], res_edge_value(blk), True)
         mol = None
         mol_closed = False
     mol_pos = [0]
@@ -851,7 +925,8 @@ def lex_tree(main_path):
 
 def make_project_real(vals):
     def project(top):
-        o = {"abort": "", "defs": {}, "defaults": 0, "atypes": {}, "nbp": {}, "types": {}, "blocks": {}, "molecules": [], "idx": {}}
+        o = {"abort": "", "defs": {}, "defaults": 0, "atypes": {}, "nbp": {}, "types": {}, "blocks": {}, "edged": {}, "molecules": [],
+             "medged": [], "idx": {}}
         for k, v in top.defines.items():
             o["defs"][k] = 0 if v is True else DEFVALS.get(" ".join(v), -1)
         for kind, key, val in table_entries(top):
@@ -866,9 +941,12 @@ def make_project_real(vals):
                 o["types"].setdefault(key, []).append(n)
         for k, b in top.force_field.blocks.items():
             o["blocks"][k] = vals.vid("mol", k, block_value(b), False)
+            o["edged"][k] = vals.vid("moledges", k, edge_value(b), False) != -1
         for m in top.molecules:
             same = block_value_of_instance(m) == block_value(top.force_field.blocks[m.mol_name]) if m.mol_name in top.force_field.blocks else False
             o["molecules"].append(m.mol_name if same else m.mol_name + "?not a copy of its block")
+            o["medged"].append(vals.vid("moledges", m.mol_name, edge_value(m.molecule), False) != -1
+                               and vals.vid("resedges", m.mol_name, edge_value(m), False) != -1)
         o["idx"] = {k: [int(i) for i in v] for k, v in top.mol_idx_by_name.items() if v}
         return o
     return project
@@ -989,10 +1067,12 @@ def run(tier):
         ("TopReadMC", "Top_dev_molsperfile.cfg", {"env": jvm(2), "workers": 1, "check": False}),
         ("TopReadMC", "Top_dev_dirkeep.cfg", {"env": jvm(2), "workers": 1, "check": False}),
         ("TopReadMC", "Top_dev_elsekeep.cfg", {"env": jvm(2), "workers": 1, "check": False}),
+        ("TopReadMC", "Top_dev_rootfirst.cfg", {"env": jvm(2), "workers": 1, "check": False}),
+        ("TopReadMC", "Top_dev_edges.cfg", {"env": jvm(2), "workers": 1, "check": False}),
     ]
     results = tlc_jobs(jobs)
     conds = results[:len(cond_jobs)]
-    sec, mols, split, cond_int, d_f3, d_mpf, d_dir, d_else = results[len(cond_jobs):]
+    sec, mols, split, cond_int, d_f3, d_mpf, d_dir, d_else, d_root, d_edges = results[len(cond_jobs):]
     for r in conds:
         ck.model_must_hold(r, "SameX (I-layer result = PRead) / NoStruct / DoneEmpty / CondOnlyGuards / DomainOK")
     ck.model_must_hold(sec, "SameX/ErrIff/Monotone (sec)")
@@ -1003,6 +1083,8 @@ def run(tier):
     ck.model_must_refute(d_mpf, "Same", "deviation F16 molecules-per-file (repaired): [molecules] instantiated per file, numbered from 0")
     ck.model_must_refute(d_dir, "Same", "wrong design: nested include keeps the includer's directory")
     ck.model_must_refute(d_else, "Same", "wrong design: #else does not invert")
+    ck.model_must_refute(d_root, "Same", "wrong design (seed-C08-1): include looked up next to the top-level file before the includer's directory")
+    ck.model_must_refute(d_edges, "Same", "wrong design (seed-C08-2): edges made only for molecule types whose name is new in the file")
     ck.extra["F3_counterexample"] = c.counterexample(d_f3)[:1500]
     idle = [a for a in ACTIONS if not ck.actions.get(a)]
     if idle:
@@ -1037,7 +1119,12 @@ def run(tier):
     recs += record_real_files(ck)
     ck.evaluations += len(recs)
     aborted = sum(1 for r in recs if r["obs"]["abort"])
-    ck.extra["records"] = {"total": len(recs), "aborted": aborted, "with_molecules": sum(1 for r in recs if r["obs"]["molecules"])}
+    ck.extra["records"] = {"total": len(recs), "aborted": aborted, "with_molecules": sum(1 for r in recs if r["obs"]["molecules"]),
+                           "include_name_also_exists_beside_main_file": sum(1 for r in recs if r.get("stats", {}).get("clash")),
+                           "molecule_type_declared_by_two_files": sum(1 for r in recs if r.get("stats", {}).get("reread")),
+                           "instances_of_reread_types": sum(1 for r in recs if r.get("stats", {}).get("reread") and r["obs"]["molecules"])}
+    if not ck.extra["records"]["include_name_also_exists_beside_main_file"] or not ck.extra["records"]["instances_of_reread_types"]:
+        raise c.MachineryError("random trees never exercise clashing include names / re-read molecule types (vacuous): %s" % ck.extra["records"])
     if aborted in (0, len(recs)):
         raise c.MachineryError("random trees are degenerate: %d of %d aborted" % (aborted, len(recs)))
     ck.sample({"I->S record": recs[1]["id"], "files": {"/".join(f["path"]): [line_text(l)[1][0] if l["k"] != "mol" else "[moleculetype %s]" % l["a"]
